@@ -81,6 +81,13 @@ def run(tier, seed):
             vio.append(dict(check="references", signature=f"{sym}|{it[0]}", what=f"C11 {sym} for case {it[0]} (set {it[2]} {NEW})", has_input=True,
                             inputs={"case": it[0], "text": it[1], "path": it[2]},
                             failing_input={"inputs": {"text": it[1], "path": it[2], "value": NEW}, "observed": sym, "origin": "bounded enumeration"}))
+    from bounded import livefresh
+    from bounded.edits import merge
+
+    return merge(_single(items, vio, t0), livefresh.run("C11", tier, seed))
+
+
+def _single(items, vio, t0):
     return dict(evaluations=len(items), distinct_nontrivial=len(items),
                 rule="documents built from a description of nested scopes (let layers with shadowing, rec set, plain sibling, with "
                      "environment, inherit, chains of references, unbound names, formals); the defining binding is known by construction; "
@@ -89,6 +96,10 @@ def run(tier, seed):
 
 
 def replay(v):
+    if v.get("check") == "live-vs-fresh" or "ops" in v["inputs"]:
+        from bounded import livefresh
+
+        return livefresh.replay("C11", v)
     for it in cases("quick"):
         if it[0] == v["inputs"]["case"]:
             sym = eval_case(it)
